@@ -7,7 +7,7 @@
    alpha_star, the early return, and that the result is in the box under exact comparisons.
    The minimisation / descent clauses are statements about real numbers: they are proved on the exact-rational model (C09.v). *)
 From Coq Require Import List Bool Arith Sorted Floats.PrimFloat.
-From LBFGSB Require Generated.FreeSet.
+From LBFGSB Require Generated.FreeSet Generated.SubspaceTail Proofs.SubspaceTail.
 From LBFGSB Require Import Base.FloatOrd Model.FloatVec Model.FCauchy Model.FSubspace Proofs.DriverBox Proofs.FSubspaceProofs.
 Import ListNotations.
 
@@ -118,6 +118,36 @@ Proof.
   cbn. unfold is_free. f_equal. apply IH; [injection Hl|injection Hu]; auto.
 Qed.
 
+(* TRANSLATION TIE for the rest of subspace_minimization.  Everything but the reduced solve - the early return for an empty
+   free set, r = grad + theta (xc - x) and its in-place correction, rHat = [r[i] for i in free_vars], dHat from the answer of
+   the reduced solve, mask = dHat != 0, alpha_star = min(1.0, np.nanmin(np.where(...) / dHat[mask] if ... else 1.0)) and the
+   returned np.clip(xc + alpha_star * Z @ dHat, lb, ub), with Z the selection matrix that get_freev builds from free_vars - is
+   translated from the NumPy source on every run (Generated/SubspaceTail.v; element-wise list reading of the idioms in
+   Model/NumpyOps.v) and IS the binary64 model the theorems above are about, for arrays of one length and a reduced solve that
+   answers with one number per free variable.  free_vars = mask.nonzero()[0] is `indices_from 0` of the translated mask. *)
+Theorem C09f_tail_from_source : forall (O : sub_oracles) (x xc c g lb ub : vec) (theta : float) (uf : bool),
+  length lb = length xc -> length ub = length xc -> length x = length xc -> length g = length xc ->
+  length (o_corr O (ffree xc lb ub) (rhat O x xc c g theta uf (ffree xc lb ub))) = Proofs.SubspaceTail.count (ffree xc lb ub) ->
+  LBFGSB.Generated.SubspaceTail.subspace_minimization (o_Wc O) (fun _ rh => o_corr O (ffree xc lb ub) rh) theta uf x xc c g lb ub
+    (indices_from 0 (LBFGSB.Generated.FreeSet.free_mask xc lb ub))
+  = fsubspace O x xc c g lb ub theta uf.
+Proof.
+  intros O x xc c g lb ub theta uf Hl Hu Hx Hg Hc. rewrite C09f_free_mask_from_source by assumption.
+  exact (Proofs.SubspaceTail.subspace_tail_eq O x xc c g lb ub theta uf Hl Hu Hx Hg Hc).
+Qed.
+
+(* the hypotheses are met and both sides are a non-trivial point: two free variables out of three, a step cut to alpha = 1/2 *)
+Example C09f_tail_example :
+  let O := mkSO (fun c => [0.25; 0.5; 0.125]%float) (fun _ rh => map (fun e => mul e 0.5) rh) in
+  let x := [0; 0; 1]%float in let xc := [0.5; 0; 1]%float in let g := [-1; 1; -2]%float in
+  let lb := [0; 0; 0]%float in let ub := [1; 1; 2]%float in
+  length (o_corr O (ffree xc lb ub) (rhat O x xc [1]%float g 2 true (ffree xc lb ub))) = Proofs.SubspaceTail.count (ffree xc lb ub)
+  /\ LBFGSB.Generated.SubspaceTail.subspace_minimization (o_Wc O) (fun _ rh => o_corr O (ffree xc lb ub) rh) 2 true x xc [1]%float g lb ub
+       (indices_from 0 (LBFGSB.Generated.FreeSet.free_mask xc lb ub)) = fsubspace O x xc [1]%float g lb ub 2 true
+  /\ map (fun e => eqb e 0) (vsub (fsubspace O x xc [1]%float g lb ub 2 true) xc) = [false; true; false].
+Proof. cbv zeta. split; [reflexivity|]. split; vm_compute; reflexivity. Qed.
+
+Print Assumptions C09f_tail_from_source.
 Print Assumptions C09f_feasible.
 Print Assumptions C09f_free_set.
 Print Assumptions C09f_nonfree_eqb.
